@@ -2,7 +2,7 @@
    Only ExtrOcamlBasic: bool, option, unit, list, prod, sumbool, sumor map to OCaml's, andb/orb are inlined;
    Z, positive, nat, N, ascii, string, spec_float stay the extracted inductive types; no Extract Constant of our own. *)
 From Coq Require Extraction ExtrOcamlBasic.
-From Magog Require Import Base Generated Position Attack Make Gen Count Eval Perft Str Fen Uci Search Spec Abs WF MakeSpec SearchImp Session.
+From Magog Require Import Base Generated Position Attack Make Gen Count Eval Perft Str Fen Uci Search Spec Abs WF MakeSpec SearchImp Session Protocol.
 Separate Extraction
   Position.startpos Position.cell_byte Position.flags_byte Position.flip_turn
   Attack.in_check Attack.attacked_by
@@ -16,4 +16,5 @@ Separate Extraction
   Search.iterate Search.minimax Search.minimax_s Search.root_search
   Abs.spec_legal_codes Abs.spec_tactical_codes Abs.spec_in_check Abs.spec_attacked Abs.spec_legal_position Abs.make_refines Abs.is_mirror_of Abs.att_case Abs.spec_mate_score Abs.line_legal Abs.model_mate_score
   WF.wf WF.wf_legal MakeSpec.make_spec_check
-  Session.handle Session.stub_search Session.sess0 Session.quiet_env.
+  Session.handle Session.stub_search Session.sess0 Session.quiet_env
+  Protocol.step Protocol.init.
